@@ -192,6 +192,17 @@ class Peer(filing.Filer):
         if self.umask is not None: # change umask for the uxd file
             oldumask = os.umask(self.umask) # set new and return old
 
+        # A temp Peer reopened with clear=False is remade in the temp directory
+        # it already has, so the uxd file of its own earlier socket is still at
+        # .path. That socket is closed, the file is dead and bind would fail
+        # with EADDRINUSE, so remove it first.
+        if self.temp and self._tempDirPath():
+            try:
+                if stat.S_ISSOCK(os.stat(self.path).st_mode):
+                    os.unlink(self.path)
+            except OSError:
+                pass
+
         #bind to file path
         try:
             self.ls.bind(self.path)
